@@ -622,7 +622,7 @@ waitA:
 		}
 		if v, ok := ls[0].Rec["dropped_records"]; ok {
 			n, isInt := asInt(v)
-			if !isInt || n <= 0 {
+			if !isInt || n < 0 {
 				out.Violate("C39/async-dropped-field", "dropped_records=%v on %s", v, m)
 			}
 			drops[i] = n
@@ -849,7 +849,7 @@ wait:
 		}
 		seen[m] = true
 		if v, ok := ls[0].Rec["dropped_records"]; ok {
-			if n, isInt := asInt(v); isInt && n > 0 {
+			if n, isInt := asInt(v); isInt && n >= 0 {
 				dropped += n
 			} else {
 				out.Violate("C39/async-dropped-field", "dropped_records=%v on %s", v, m)
@@ -864,12 +864,89 @@ wait:
 	}
 }
 
+// runC39CloseDrain: Close is called while records whose enqueue has already
+// returned are still in the queue (the writer is parked on the first one).
+// The queue never fills, so nothing may be dropped: when Close returns, every
+// one of them has been written, once.
+func runC39CloseDrain(c c39Case, out *lib.Outcome) {
+	q := c.Async.Queue
+	k := q
+	if k > 12 {
+		k = 12
+	}
+	if k < 1 {
+		return
+	}
+	gw := &gatedWriter{gate: make(chan struct{})}
+	hook := vgirpc.NewAccessLogHook(gw, "")
+	if err := hook.SetAsync(q); err != nil {
+		return
+	}
+	opened := false
+	open := func() {
+		if !opened {
+			opened = true
+			close(gw.gate)
+		}
+	}
+	defer open()
+	for i := 0; i < k; i++ {
+		feedHook(hook, baseInfo(fmt.Sprintf("queued_%d", i), vgirpc.DispatchMethodUnary), nil)
+		if i == 0 {
+			// let the writer take the first record, so the rest fit the queue
+			for begin := time.Now(); gw.entered.Load() == 0 && time.Since(begin) < 20*time.Second; {
+				time.Sleep(50 * time.Microsecond)
+			}
+		}
+	}
+	closed := make(chan struct{})
+	go func() { hook.Close(); close(closed) }()
+	time.Sleep(2 * time.Millisecond)
+	select {
+	case <-closed:
+		// Close returned although the writer is still parked on the first record
+		out.Violate("C39/close-returned-before-drain", "Close returned while the writer was still parked on the first of %d queued records (queue %d)", k, q)
+		open()
+		return
+	default:
+	}
+	open()
+	select {
+	case <-closed:
+	case <-time.After(hardBound):
+		out.Skipped = true
+		out.Label("skipped:close-slow")
+		return
+	}
+	out.Label("async:close-with-backlog")
+	seen := map[string]int{}
+	for _, raw := range gw.snapshot() {
+		if ls, _ := splitLines(raw); len(ls) == 1 && ls[0].Rec != nil {
+			m, _ := asString(ls[0].Rec["method"])
+			seen[m]++
+		}
+	}
+	for i := 0; i < k; i++ {
+		name := fmt.Sprintf("queued_%d", i)
+		switch seen[name] {
+		case 1:
+		case 0:
+			out.Violate("C39/async-accounting-lost", "record %s was enqueued (queue %d never full) before Close and is not in the log after Close returned; %d of %d written", name, q, len(seen), k)
+			return
+		default:
+			out.Violate("C39/async-written-twice", "record %s was written %d times", name, seen[name])
+			return
+		}
+	}
+}
+
 func runC39(c c39Case) (out lib.Outcome) {
 	lib.ResetEvents()
 	runC39Sampling(c, &out)
 	runC39Real(c, &out)
 	runC39Async(c, &out)
 	runC39Swap(c, &out)
+	runC39CloseDrain(c, &out)
 	return
 }
 
@@ -883,7 +960,7 @@ var propC39 = lib.Prop[c39Case]{
 		"Non-trivial: a written record carrying dropped_records > 0 (a drop followed by a later written record).",
 	Gen:          genC39,
 	Run:          runC39,
-	Essential:    []string{"async:blocked", "async:slow", "async:fast", "async:drop-then-written", "async:overfull-while-blocked", "async:racing-close", "async:with-sampling", "async:swap-all-returned-while-parked", "sample:group-kept", "sample:group-dropped", "sample:error-kept", "sample:real-stream-multi", "rate:0", "rate:tiny", "rate:mid", "rate:1"},
+	Essential:    []string{"async:blocked", "async:slow", "async:fast", "async:drop-then-written", "async:overfull-while-blocked", "async:racing-close", "async:close-with-backlog", "async:with-sampling", "async:swap-all-returned-while-parked", "sample:group-kept", "sample:group-dropped", "sample:error-kept", "sample:real-stream-multi", "rate:0", "rate:tiny", "rate:mid", "rate:1"},
 	EssentialMin: 300,
 	Assumptions: []string{
 		"'enqueued before close' means the dispatch returned before Close was called; records fed concurrently with or after Close are only required not to be written twice",
